@@ -7,7 +7,7 @@ from __future__ import annotations
 
 import json
 
-from .lab import Probe
+from .lab import Probe, SpinGuard
 
 _BIG = 10**18
 
@@ -105,6 +105,31 @@ def src_key(s):
 def runtime_multiset(sources):
     """Order-independent description of a list of logged sources: (timeline, subscription intervals)."""
     return sorted(json.dumps([src_key(s), sort_intervals(s.subs)]) for s in sources)
+
+
+def guard_spin(lab, limit=95):
+    """Make the lab discard (SpinGuard -> lab.inconclusive == "spin") every run in which the virtual-time
+    scheduler dequeues `limit` items in a row without advancing its clock.
+
+    The library bumps the clock by one unit after 100 such dequeues (C29's subject); a bumped run is no longer
+    time-shift invariant, so it must not reach a differential oracle.  Lab's own guard counts *invoked* actions only;
+    cancelled items also count towards the library's limit (measured: bump after 51 invoked actions), hence this
+    dequeue-level guard.  Wraps the queue object of this lab's scheduler only."""
+    q = lab.sched._queue
+    orig = q.dequeue
+    n = [0]
+
+    def dequeue():
+        item = orig()
+        if item.duetime > lab.sched.now:
+            n[0] = 0
+        else:
+            n[0] += 1
+            if n[0] >= limit:
+                raise SpinGuard()
+        return item
+
+    q.dequeue = dequeue
 
 
 class HProbe(Probe):
